@@ -869,6 +869,62 @@ def rule_copier_derefs(em, rep, rid, fr):
     return n
 
 
+def rule_copier_map_shared(em, rep, rid, fr):
+    """C07.S6 / C13.S5: one renaming map per fact"""
+    from .callgraph import arg_for_param
+    rep.rule(rid, 'a renaming copy that records its renaming in a map parameter is given, by every caller that copies the '
+                  'arguments of one fact one after the other (a loop / comprehension over them), one map created outside that '
+                  'loop - a map per argument would rename a variable shared by two arguments to two unrelated variables')
+    n = 0
+    for f in sorted(fr.used, key=lambda x: x.qname):
+        ps = f.params[1:] if f.is_method else f.params
+        maps = []
+        for q in ps[1:]:
+            src = [x for x in own_nodes(f.node) if (isinstance(x, ast.Compare) and any(isinstance(o, (ast.In, ast.NotIn)) for o in x.ops) and
+                                                   any(is_name(c, q) for c in x.comparators)) or
+                   (isinstance(x, ast.Subscript) and is_name(x.value, q)) or
+                   (isinstance(x, ast.Call) and isinstance(x.func, ast.Attribute) and is_name(x.func.value, q) and x.func.attr in ('get', 'setdefault'))]
+            if src:
+                maps.append(q)
+        for q in maps:
+            for g, call in em.cg.call_sites_of(f):
+                if g is f:
+                    continue
+                n += 1
+                key = '%s:%s' % (g.qname, norm(call)[:50])
+                loops = []
+                for p_ in parents(call):
+                    if isinstance(p_, (ast.FunctionDef, ast.Lambda)):
+                        break
+                    if isinstance(p_, (ast.For, ast.While, ast.ListComp, ast.GeneratorExp, ast.SetComp, ast.DictComp)):
+                        loops.append(p_)
+                a = arg_for_param(call, f, q)
+                if not loops:
+                    rep.ok(rid, key, 'copies one term: a map of its own is all it needs', g.loc(call), nontrivial=False)
+                    continue
+                why = None
+                if a is None:
+                    why = 'no map is passed: every call makes its own'
+                elif isinstance(a, ast.Dict) or (isinstance(a, ast.Call) and is_name(a.func, 'dict')):
+                    why = 'a new map is created for every call'
+                elif is_name(a) and a.id not in g.all_params:
+                    defs = [s_ for s_ in own_nodes(g.node) if isinstance(s_, (ast.Assign, ast.AnnAssign)) and
+                            any(is_name(t, a.id) for t in (s_.targets if isinstance(s_, ast.Assign) else [s_.target]))]
+                    inside = [s_ for s_ in defs if any(any(s_ is y for y in ast.walk(l)) for l in loops)]
+                    if inside:
+                        why = 'the map %s is created anew inside the loop over the arguments' % a.id
+                    elif not defs:
+                        why = None      # a closure variable / loop target: not decided here
+                if why:
+                    rep.violation(rid, key, 'the arguments of one fact are copied with a renaming map each (%s): a variable that occurs in two '
+                                  'arguments becomes two different variables, so the stored fact matches, and is retracted for, '
+                                  'patterns it does not match' % why, g.loc(call))
+                else:
+                    rep.ok(rid, key, 'one map, created outside the loop over the arguments, is shared by all of them', g.loc(call))
+    if not n:
+        rep.ok(rid, 'copiers', 'no renaming copy with a map parameter is called from outside (see S1/S2)', None, nontrivial=False)
+
+
 # ---------------------------------------------------------------------------------------------
 # C16
 
